@@ -238,12 +238,17 @@ pub struct CaseB {
     pub log_hard: Option<String>,
     /// the process runs in a working directory that was deleted under it; program and log are named by absolute paths
     pub deleted_cwd: bool,
+    /// Some(schedule): TWO live runs of the program, each with its own log file in the same, not yet existing directory, under
+    /// the cooperative scheduler (they announce before every mkdir): neither may notice the other
+    pub overlap_logdir: Option<String>,
+    /// the log path is a FIFO whose reader drains it lazily (nothing for 250 ms, then every 20 ms): the writer meets a full pipe and has to wait
+    pub fifo_log: bool,
 }
 
 impl CaseB {
     pub fn to_json(&self) -> Value {
         json!({"engine": ENGINE_B, "program": self.spec.to_json(), "profile": self.profile.name(), "action": self.action, "size_mb": self.size_mb,
-               "log_path": self.log_path, "clock": self.clock, "plan": self.plan, "stale_log": self.stale_log, "hash_seed": self.hash_seed, "stdout_fault": self.stdout_fault, "clock_extra_s": self.clock_extra_s, "as_limit": self.as_limit, "log_hard": self.log_hard, "deleted_cwd": self.deleted_cwd})
+               "log_path": self.log_path, "clock": self.clock, "plan": self.plan, "stale_log": self.stale_log, "hash_seed": self.hash_seed, "stdout_fault": self.stdout_fault, "clock_extra_s": self.clock_extra_s, "as_limit": self.as_limit, "log_hard": self.log_hard, "deleted_cwd": self.deleted_cwd, "overlap_logdir": self.overlap_logdir, "fifo_log": self.fifo_log})
     }
     pub fn from_json(v: &Value) -> Option<CaseB> {
         Some(CaseB {
@@ -261,6 +266,8 @@ impl CaseB {
             as_limit: v.get("as_limit").and_then(|c| c.as_u64()),
             log_hard: v.get("log_hard").and_then(|c| c.as_str()).map(|s| s.to_string()),
             deleted_cwd: v.get("deleted_cwd").and_then(|c| c.as_bool()).unwrap_or(false),
+            overlap_logdir: v.get("overlap_logdir").and_then(|c| c.as_str()).map(|s| s.to_string()),
+            fifo_log: v.get("fifo_log").and_then(|c| c.as_bool()).unwrap_or(false),
         })
     }
 }
@@ -319,6 +326,49 @@ pub fn check_b(case: &CaseB) -> Result<Option<ObsB>, (String, String)> {
         for i in 0..400 { old.push_str(&format!("{},A,{}\n", i + 2, (i + 1) * 1000)); }
         std::fs::write(&path, old).unwrap();
     }
+    if let Some(sched) = &case.overlap_logdir {
+        let choices: Vec<u8> = sched.bytes().map(|b| b.wrapping_sub(b'0')).collect();
+        let mut mk = |log: &str| { let mut a: Vec<&str> = vec![case.action.as_str(), input, "--heap-log", log]; if let Some(s) = &size_text { a.push("--heap-size"); a.push(s.as_str()); }
+            let mut c = Child::new(case.profile, &a); c.shim = Some(ShimCfg { seed: case.hash_seed ^ 0x55, clock: case.clock.clone(), ..Default::default() }); c };
+        let (ca, cb) = (mk("racedir/sub/a.csv"), mk("racedir/sub/b.csv"));
+        let (ra, rb, order) = super::proc::run_scheduled_pair(&dir, &ca, &cb, "mkdir", &choices);
+        children += 2;
+        let logs = [std::fs::read(dir.join("racedir/sub/a.csv")), std::fs::read(dir.join("racedir/sub/b.csv"))];
+        let _ = std::fs::remove_dir_all(&dir);
+        if p.exit == Exit::Timeout || ra.exit == Exit::Timeout || rb.exit == Exit::Timeout { return Ok(None); }
+        for (which, r, log) in [("first", &ra, &logs[0]), ("second", &rb, &logs[1])] {
+            if r.exit != p.exit || r.stdout != p.stdout {
+                return Err(("H6:behaviour_changed_by_memory_flags".into(), format!("two live runs logging into the same new directory (schedule `{}`): the {} one ended with {} / {} bytes of stdout; alone and without flags: {} / {} bytes", order, which, r.exit.show(), r.stdout.len(), p.exit.show(), p.stdout.len())));
+            }
+            if !matches!(inproc.end, RunEnd::Init(_)) {
+                let total = inproc.heap.len().max(inproc.alloc_marks.len());
+                let ok = match log { Ok(b) => parse_log(b).map(|pl| pl.sizes.len() == total || pl.sizes.len() == total + 1).unwrap_or(false), Err(_) => false };
+                if !ok { return Err(("H1:log_malformed".into(), format!("two live runs logging into the same new directory (schedule `{}`): the log of the {} one is missing, malformed or incomplete", order, which))); }
+            }
+        }
+        return Ok(Some(ObsB { children, clock_reads: 0, clock_backwards: false, log_faults: 0, failing: ra.exit.is_clean_failure(), records: 0, stdout_fault_fired: false }));
+    }
+    let fifo_reader = if case.fifo_log {
+        extern "C" { fn mkfifo(path: *const std::os::raw::c_char, mode: u32) -> i32; }
+        let path = dir.join(&case.log_path);
+        let cpath = std::ffi::CString::new(path.to_string_lossy().as_bytes()).unwrap();
+        unsafe { mkfifo(cpath.as_ptr(), 0o644); }
+        // the lazy reader: opens the FIFO (which lets the writer's open return), then drains it every 20 ms until end of file
+        Some(std::thread::spawn(move || {
+            use std::io::Read;
+            let mut all = Vec::new();
+            if let Ok(mut f) = std::fs::File::open(&path) {
+                let mut buf = vec![0u8; 1 << 20];
+                // nothing is read for a quarter of a second: whatever the writer produces meanwhile beyond the pipe's 64 KiB has to wait
+                std::thread::sleep(std::time::Duration::from_millis(250));
+                loop {
+                    std::thread::sleep(std::time::Duration::from_millis(20));
+                    match f.read(&mut buf) { Ok(0) => break, Ok(n) => all.extend_from_slice(&buf[..n]), Err(_) => break }
+                }
+            }
+            all
+        }))
+    } else { None };
     let mut flagged = Child::new(case.profile, &args);
     flagged.deleted_cwd = case.deleted_cwd;
     let full_plan = match &case.stdout_fault { Some(sf) if case.plan.is_empty() => sf.clone(), Some(sf) => format!("{};{}", case.plan, sf), None => case.plan.clone() };
@@ -337,7 +387,11 @@ pub fn check_b(case: &CaseB) -> Result<Option<ObsB>, (String, String)> {
     let f = run_child(&dir, &flagged);
     children += 1;
     let log_hard_fired = case.log_hard.is_some() && f.trace.lines().any(|l| l.starts_with("W f ") && l.contains("-> E") && !l.ends_with("-> E4"));
-    let log = std::fs::read(dir.join(&case.log_path));
+    let log = match fifo_reader {
+        // if the tool never opened the FIFO for writing the reader is still waiting in open(): open and close the write side
+        Some(h) => { let _ = std::fs::OpenOptions::new().write(true).open(dir.join(&case.log_path)); Ok(h.join().unwrap_or_default()) }
+        None => std::fs::read(dir.join(&case.log_path)),
+    };
     let _ = std::fs::remove_dir_all(&dir);
     if p.exit == Exit::Timeout || f.exit == Exit::Timeout {
         return Ok(None);
@@ -445,6 +499,7 @@ fn minimise_b(case: &CaseB, oracle: &str) -> CaseB {
     if best.clock_extra_s.is_some() { let mut c = best.clone(); c.clock_extra_s = None; if still(&c) { best = c; } }
     if best.as_limit.is_some() { let mut c = best.clone(); c.as_limit = None; if still(&c) { best = c; } }
     if best.deleted_cwd { let mut c = best.clone(); c.deleted_cwd = false; if still(&c) { best = c; } }
+    if best.overlap_logdir.is_some() { let mut c = best.clone(); c.overlap_logdir = None; if still(&c) { best = c; } }
     if best.size_mb.is_some() { let mut c = best.clone(); c.size_mb = None; if still(&c) { best = c; } }
     if best.action != "run" { let mut c = best.clone(); c.action = "run".into(); if still(&c) { best = c; } }
     if let ProgSpec::Stmts(stmts) = &best.spec {
@@ -653,8 +708,12 @@ pub fn run(seed: u64, tier: &str, ev: &mut Evidence) -> Vec<Violation> {
             as_limit: None,
             log_hard: None,
             deleted_cwd: rng.below(12) == 0,
+            overlap_logdir: None,
+            fifo_log: false,
         };
         let mut case = case;
+        if i % 13 == 6 { case.overlap_logdir = Some((0..10).map(|_| if rng.coin() { '1' } else { '0' }).collect()); case.plan = String::new(); case.stale_log = false; case.deleted_cwd = false; }
+        if i < scale.len() && scale[i].0.starts_with("allocations_6000") { case.fifo_log = true; case.plan = String::new(); case.stale_log = false; case.deleted_cwd = false; case.overlap_logdir = None; case.log_path = "heap.fifo".into(); }
         match i % 11 {
             // the wall clock is centuries ahead (a dead RTC battery reads anything): beyond 64-bit nanoseconds since the epoch
             2 => { case.clock_extra_s = Some(*rng.pick(&[32_503_680_000i64, 253_402_300_800, 4_000_000_000_000])); if case.clock.is_none() { case.clock = Some("1700000000000000000:1000".into()); } }
@@ -664,7 +723,8 @@ pub fn run(seed: u64, tier: &str, ev: &mut Evidence) -> Vec<Violation> {
             8 => { case.log_hard = Some(format!("f:{}:x:{}", rng.pick(&["0", "$-1", "$-1", "$-2", "$/2"]), rng.pick(&[28u32, 5, 122]))); case.plan = String::new(); case.stdout_fault = None; }
             _ => {}
         }
-        if i % 5 == 3 && case.log_hard.is_none() {
+        if case.fifo_log || case.overlap_logdir.is_some() { case.log_hard = None; case.as_limit = None; }
+        if i % 5 == 3 && case.log_hard.is_none() && !case.fifo_log && case.overlap_logdir.is_none() {
             // stdout fails hard at one of its first write calls (EPIPE: the reader went away; ENOSPC/EIO: the redirection target)
             case.stdout_fault = Some(format!("o:{}:x:{}", rng.below(6), rng.pick(&[32u32, 32, 28, 5])));
         }
@@ -685,6 +745,8 @@ pub fn run(seed: u64, tier: &str, ev: &mut Evidence) -> Vec<Violation> {
             faults += o.log_faults;
             if o.failing { failing += 1; }
             if o.stdout_fault_fired { stdout_failed += 1; }
+            if case.fifo_log { ev.count("layer_b.runs_logging_into_a_fifo_with_a_lazy_reader", 1); }
+            if case.overlap_logdir.is_some() { ev.count("layer_b.pairs_of_live_runs_logging_into_the_same_new_directory", 1); }
             recs += o.records as u64;
             ev.distinct.insert(digest_of(&(digest_bytes(case.spec.source().unwrap_or_default().as_bytes()), case.profile, &case.action, case.size_mb, &case.log_path, &case.clock, &case.plan)));
             if ev.samples.len() < 6 && o.records > 0 && (o.clock_backwards || o.log_faults > 0) {
